@@ -202,7 +202,61 @@ def r3_space_leaf(w):
     return r
 
 
-RULES = [r1_math_space_mapping, r2_breaks_suppressed_below_math, r3_space_leaf]
+def r4_no_accessor_bypass(w):
+    """a complete path through the converter of a Math / MathDelimited node that builds the node's document without walking its children (from the
+    typed accessors `open()` / `body()` / `close()`) cannot carry the whitespace tokens between them (seed C09/5B: `( )` answered with open + close).
+    Accepted: paths that iterate the children (judged by R1), emit the node's own text, delegate the same node, or emit nothing."""
+    from rules import c06
+    import sites as sites_mod
+    r = RuleResult('C09.R4', 'no complete path through the Math / MathDelimited converters builds the document from typed accessors only', floor=2)
+    e2.site_table(w)
+    se = sites_mod.SiteEvaluator(w)
+    se.evaluate_all()
+    emitting = {(loop[0], loop[1]) for (fn_, parent_, loop) in e2.emitting_loops(e2.groups(w))}
+    # functions that take the node as a value of an AST enum (`fn convert_frac_operand(ctx, expr: Expr)`) are not sites of the table: evaluated here for
+    # the two kinds (the seven dispatchers themselves are judged by C01.R1 and hand the node on)
+    import kindflow as kf_
+    g_ = grammar.load()
+    extra = dict(se.wholes)
+    tip = kf_.Interp(w)
+    for b in w.fn_bodies(w.core):
+        if b.def_kind == 'Closure' or not b.short.startswith('pretty::') or not b.locals[0]['ty']['s'].startswith('pretty::DocBuilder'):
+            continue
+        for i in range(1, b.arg_count + 1):
+            n = grammar.ast_type_name(b.locals[i]['ty'])
+            if n and n in g_['variant_of'] and n not in g_['node_types'] and not re.search(r'::(convert_expr|convert_expr_impl|convert_pattern|convert_arg|convert_param|convert_array_item|convert_dict_item|convert_destructuring_item)$', b.short):
+                for K in ('Math', 'MathDelimited'):
+                    if K in g_['variant_of'][n] and (b.short, K) not in extra:
+                        outs, wholes = se.evaluate(b, i, K, max_steps=60000, param_val=tip.typed(n, Node('parent', K)))
+                        extra[(b.short, K)] = wholes if outs is not None else None
+    for (fn, parent), wholes in sorted(extra.items()):
+        if parent not in ('Math', 'MathDelimited'):
+            continue
+        cons = {'converter': e2.last(fn), 'parent': parent}
+        if wholes is None:
+            r.bad(cons, '%s|%s|not-evaluated' % (e2.last(fn), parent), '%s could not be evaluated within bounds' % fn)
+            continue
+        bad = None
+        for wh in wholes:
+            # loops the path went through count only if something is emitted from them (a scan that only inspects the children - seed C09/5A:
+            # `grouped_operand_body` - walks nothing into the document)
+            walked = [p_ for p_ in (wh.passed or []) if (p_[0], p_[1]) in emitting]
+            if walked or not c06._emits_something(wh) or c06._own_text(wh):
+                continue
+            if any(a[0] == 'conv' and isinstance(a[2], Node) and a[2].tag == 'parent' for a in wh.atoms):
+                continue          # hands the same node on
+            bad = wh
+            break
+        if bad is None:
+            r.ok(cons, 'every complete path walks the children, delegates the node, emits its own text or nothing')
+        else:
+            r.bad(cons, '%s|%s|accessor-bypass' % (e2.last(fn), parent),
+                  '%s has a path that builds the document of a %s node from typed accessors only (emits %s): whitespace tokens between the accessed children are not '
+                  'looked at - `( )` would come out as `()`' % (e2.last(fn), parent, sorted({sites_mod.summarise_atom(a, Node('child', None)) for a in bad.atoms})[:5]))
+    return r
+
+
+RULES = [r1_math_space_mapping, r2_breaks_suppressed_below_math, r3_space_leaf, r4_no_accessor_bypass]
 for _f in RULES:
     _f.needs = ('core',)
 MATRIX_RULES = [r3_space_leaf]
